@@ -20,7 +20,7 @@ func init() {
 
 func runC16(c *Ctx, r *Report) {
 	p := c.P
-	join := p.Func("", "IPFSLog", "Join")
+	join := p.FuncI("", "IPFSLog", "Join")
 	r.Doc("R-C16.1", "size-tainted slice/index bounds in Join proved in range for all values")
 	r.Doc("R-C16.2", "truncated Entries and heads derive from one suffix slice of values() computed after the merge's stores")
 	r.Doc("control", "engine positive/negative controls analysed on every run")
@@ -62,8 +62,8 @@ func runC16(c *Ctx, r *Report) {
 	entriesF := p.Field("", "IPFSLog", "Entries")
 	headsF := p.Field("", "IPFSLog", "heads")
 	valuesFn := p.FuncObj("", "IPFSLog", "values")
-	es := fieldStores(sf, entriesF, false)
-	hs := fieldStores(sf, headsF, false)
+	es := p.fieldStoresGroup(sf, entriesF)
+	hs := p.fieldStoresGroup(sf, headsF)
 	r.Floor("R-C16.2", "stores to Entries in Join (bounded branch)", len(es), 1)
 	r.Floor("R-C16.2", "stores to heads in Join", len(hs), 2)
 	for _, st := range es {
@@ -73,6 +73,9 @@ func runC16(c *Ctx, r *Report) {
 		cutOperand := map[ssa.Value]ssa.Value{}
 		cutIsSuffix := map[ssa.Value]bool{}
 		for v := range bs {
+			if ins, ok := v.(ssa.Instruction); ok && ins.Parent() != st.Parent() {
+				continue // values inside callees the slice stepped into
+			}
 			switch s := v.(type) {
 			case *ssa.Slice:
 				slices = append(slices, s)
@@ -102,7 +105,7 @@ func runC16(c *Ctx, r *Report) {
 		var shared ssa.Value
 		var hstore *ssa.Store
 		for _, h := range hs {
-			if !(h.Block() == st.Block() || st.Block().Dominates(h.Block())) {
+			if !(h.Block() == st.Block() || (h.Parent() == st.Parent() && st.Block().Dominates(h.Block()))) {
 				continue
 			}
 			hb := backSlice(h.Val, nil)
@@ -127,7 +130,7 @@ func runC16(c *Ctx, r *Report) {
 		after := false
 		if vcall != nil {
 			for _, h := range hs {
-				if h != hstore && instrDominates(h, vcall) {
+				if h != hstore && p.instrDominatesG(sf, h, vcall) {
 					after = true
 				}
 			}
@@ -186,8 +189,15 @@ func runC16(c *Ctx, r *Report) {
 	if sizePar == nil {
 		infra("unresolved anchor: Join's size parameter in SSA")
 	}
-	derived := map[ssa.Value]bool{sizePar: true}
-	// a spilled parameter lives in a cell
+	badUse := sizeUses(p, sf, sizePar, 0)
+	r.Check(badUse == "", "R-C16.4", r.Key("R-C16.4", join, "size-uses", ""), join.Body.Pos(),
+		"the size bound only feeds comparisons and the truncating slice", "the size bound is "+badUse+": which entries are collected/verified/merged now depends on the bound, so the result is no longer the tail of what the unbounded merge would produce")
+}
+
+// sizeUses: how the integer parameter par of sf is used — "" when it only feeds comparisons, slice bounds,
+// min/max-like helpers, suffix-only cut helpers, or helpers that in turn use it only that way.
+func sizeUses(p *Prog, sf *ssa.Function, par *ssa.Parameter, depth int) string {
+	derived := map[ssa.Value]bool{par: true}
 	for changed := true; changed; {
 		changed = false
 		allInstrs(sf, true, func(ins ssa.Instruction) {
@@ -233,51 +243,122 @@ func runC16(c *Ctx, r *Report) {
 			}
 		})
 	}
-	nuse := 0
-	badUse := ""
+	bad := ""
+	// a test of the bound that sits inside a loop decides how much is collected, not where the result is cut
+	cuts := 0
+	allInstrs(sf, true, func(ins ssa.Instruction) {
+		switch x := ins.(type) {
+		case *ssa.If:
+			if !blockInCycle(x.Block()) {
+				return
+			}
+			for v := range backSliceOpt(x.Cond, func(v ssa.Value) bool {
+				if b, isB := v.Type().Underlying().(*types.Basic); !isB || b.Info()&(types.IsInteger|types.IsBoolean) == 0 {
+					return false // lengths of collections cut by the bound are data, not the bound
+				}
+				ins, isIns := v.(ssa.Instruction)
+				return !isIns || ins.Parent() == x.Parent()
+			}, false) {
+				if derived[v] {
+					bad = "tested inside a loop at " + p.Pos(x.Cond.Pos()) + " (the bound limits what is collected)"
+				}
+			}
+		case *ssa.Slice:
+			if (x.Low != nil && derived[x.Low]) || (x.High != nil && derived[x.High]) {
+				cuts++
+			}
+		}
+	})
+	if bad != "" {
+		return bad
+	}
+	if depth > 0 && cuts == 0 {
+		sub := false
+		allInstrs(sf, true, func(ins ssa.Instruction) {
+			if c, ok := ins.(*ssa.Call); ok {
+				for _, a := range c.Call.Args {
+					if derived[a] {
+						sub = true
+					}
+				}
+			}
+		})
+		if !sub {
+			return "only tested, never used to cut a slice (the helper is not a truncation)"
+		}
+	}
 	allInstrs(sf, true, func(ins ssa.Instruction) {
 		switch x := ins.(type) {
 		case *ssa.Call:
 			if _, isB := x.Call.Value.(*ssa.Builtin); isB {
 				return
 			}
-			for _, a := range x.Call.Args {
-				if derived[a] {
-					nuse++
-					cal := "a function value"
-					if sc := x.Call.StaticCallee(); sc != nil {
-						cal = sc.Name()
+			for ai, a := range x.Call.Args {
+				if !derived[a] {
+					continue
+				}
+				cal := "a function value"
+				sc := x.Call.StaticCallee()
+				if sc != nil {
+					cal = sc.Name()
+					if p.firstParty(calleePkg(sc)) {
 						// a helper that can only return a suffix of its list argument: the size merely picks the cut
-						isCut := false
 						for i, a2 := range x.Call.Args {
-							if _, isSl := a2.Type().Underlying().(*types.Slice); isSl && p.firstParty(calleePkg(sc)) {
+							if _, isSl := a2.Type().Underlying().(*types.Slice); isSl {
 								if ok, _ := suffixOnly(p, sc, i, 0); ok {
-									isCut = true
+									return
 								}
 							}
 						}
-						if isCut {
+						// small pure int helpers keep the value inside arithmetic
+						if lp := NewLenProver(p, sf); isIntType(x.Type()) && lp.summary(sc, x.Call.Args, linAtom("r"), false) != nil {
 							return
 						}
-						// small pure int helpers (min/max-like) keep the value inside arithmetic
-						if lp := NewLenProver(p, sf); isIntType(x.Type()) && lp.summary(sc, x.Call.Args, linAtom("r"), false) != nil {
-							derived[x] = true
-							return
+						// a helper that itself uses the value only as a bound
+						if depth < 2 && len(sc.Blocks) > 0 {
+							idx := ai
+							if sc.Signature.Recv() != nil {
+								// Params include the receiver first; Args too — same indexing
+							}
+							if idx < len(sc.Params) {
+								if sub := sizeUses(p, sc, sc.Params[idx], depth+1); sub == "" {
+									return
+								} else {
+									bad = fmt.Sprintf("passed to %s at %s, where it is %s", cal, p.Pos(x.Pos()), sub)
+									return
+								}
+							}
 						}
 					}
-					badUse = fmt.Sprintf("passed to %s at %s", cal, p.Pos(x.Pos()))
 				}
+				bad = fmt.Sprintf("passed to %s at %s", cal, p.Pos(x.Pos()))
 			}
 		case *ssa.Store:
 			if derived[x.Val] {
 				if _, isAlloc := x.Addr.(*ssa.Alloc); !isAlloc {
-					badUse = "stored at " + p.Pos(x.Pos())
+					bad = "stored at " + p.Pos(x.Pos())
 				}
 			}
-		case *ssa.BinOp, *ssa.Slice:
-			nuse++
 		}
 	})
-	r.Check(badUse == "", "R-C16.4", r.Key("R-C16.4", join, "size-uses", ""), join.Body.Pos(),
-		"the size bound only feeds comparisons and the truncating slice", "the size bound is "+badUse+": which entries are collected/verified/merged now depends on the bound, so the result is no longer the tail of what the unbounded merge would produce")
+	return bad
+}
+
+// blockInCycle: b can reach itself in its function's control-flow graph.
+func blockInCycle(b *ssa.BasicBlock) bool {
+	seen := map[*ssa.BasicBlock]bool{}
+	work := append([]*ssa.BasicBlock(nil), b.Succs...)
+	for len(work) > 0 {
+		x := work[len(work)-1]
+		work = work[:len(work)-1]
+		if x == b {
+			return true
+		}
+		if seen[x] {
+			continue
+		}
+		seen[x] = true
+		work = append(work, x.Succs...)
+	}
+	return false
 }
